@@ -28,19 +28,19 @@ def r8a(ctx: Ctx) -> RuleReport:
         pp = ParsedPattern(pat, re.VERBOSE)
         rep.oblige(f'PATTERNS[{name}] has no capturing group', pp.n_groups == 0,
                    f'{pp.n_groups} capturing group(s) in {pat!r}' if pp.n_groups else '', LEX,
-                   key=f'PATTERNS[{name}] no-capture')
+                   key=f'PATTERNS[{name}] no-capture', positive=True)
     for cp in _patterns(ctx):
         unnamed = [i for i, n in enumerate(cp.names()) if n is None]
         rep.oblige(f'{cp.name}: every top-level alternative is a named group', not unnamed,
                    f'unnamed alternative(s) at index {unnamed}' if unnamed else
                    f'{len(cp.alts)} alternatives: {", ".join(map(str, cp.names()))}', LEX,
-                   key=f'{cp.name} named-alternatives')
+                   key=f'{cp.name} named-alternatives', positive=True)
         inner = sum(cp.parsed.capture_groups_inside(sub) for _, _, sub in cp.alts)
         rep.oblige(f'{cp.name}: m.lastgroup is always the alternative name', inner == 0 and not unnamed,
                    f'{inner} capturing group(s) nested inside alternatives' if inner else '', LEX,
-                   key=f'{cp.name} lastgroup-is-class')
+                   key=f'{cp.name} lastgroup-is-class', positive=True)
         rep.oblige(f'{cp.name}: flags are VERBOSE only', cp.flags == re.VERBOSE,
-                   f'flags={cp.flags}', LEX, key=f'{cp.name} flags')
+                   f'flags={cp.flags}', LEX, key=f'{cp.name} flags', positive=True)
     rep.analysed = {'patterns': sorted(lm.patterns), 'compiled': [c.name for c in _patterns(ctx)]}
     return rep
 
@@ -51,7 +51,7 @@ def r8b(ctx: Ctx) -> RuleReport:
     for cp in _patterns(ctx):
         for n, lang, _ in cp.alts:
             rep.oblige(f'{cp.name}.{n} is non-nullable', not lang.nullable(),
-                       'matches the empty string' if lang.nullable() else '', LEX, key=f'{cp.name}.{n} non-nullable')
+                       'matches the empty string' if lang.nullable() else '', LEX, key=f'{cp.name}.{n} non-nullable', positive=True)
     return rep
 
 
@@ -64,10 +64,10 @@ def r8c(ctx: Ctx) -> RuleReport:
             meet = lang.first_set() & B
             rep.oblige(f'{cp.name}.{n} cannot start with a blank', not meet,
                        f'first-set meets blanks: {meet.describe()}' if meet else '', LEX,
-                       key=f'{cp.name}.{n} first-set-no-blank')
+                       key=f'{cp.name}.{n} first-set-no-blank', positive=True)
         if not cp.has('UNEXPECTED'):
             rep.oblige(f'{cp.name} has a catch-all UNEXPECTED class', False, 'class UNEXPECTED missing', LEX,
-                       key=f'{cp.name} catch-all')
+                       key=f'{cp.name} catch-all', positive=True)
             continue
         un = cp.lang('UNEXPECTED').is_finite_single_char()
         ok = un is not None and un == ~B
@@ -80,16 +80,16 @@ def r8c(ctx: Ctx) -> RuleReport:
             detail = (f'characters skipped although not blank: {extra_skipped.describe()} ' if extra_skipped else '') + \
                      (f'blanks reported as tokens: {wrongly.describe()}' if wrongly else '')
         rep.oblige(f'{cp.name}.UNEXPECTED is one character, any character but the six blanks', ok, detail, LEX,
-                   key=f'{cp.name} catch-all complement-of-blanks')
+                   key=f'{cp.name} catch-all complement-of-blanks', positive=True)
         rep.oblige(f'{cp.name}.UNEXPECTED is the last alternative', cp.names()[-1] == 'UNEXPECTED',
-                   f'order: {cp.names()}', LEX, key=f'{cp.name} catch-all last')
+                   f'order: {cp.names()}', LEX, key=f'{cp.name} catch-all last', positive=True)
         for n, lang, _ in cp.alts:
             if n in ('STRING', 'COMMENT', 'UNEXPECTED'):
                 continue
             meet = lang.alphabet() & B
             rep.oblige(f'{cp.name}.{n} contains no blank', not meet,
                        f'alphabet meets blanks: {meet.describe()}' if meet else '', LEX,
-                       key=f'{cp.name}.{n} alphabet-no-blank')
+                       key=f'{cp.name}.{n} alphabet-no-blank', positive=True)
     rep.assumptions.append('re.finditer scans left to right, takes the first alternative (in order) that matches '
                            'at a position and skips a character only when no alternative matches there')
     return rep
@@ -124,7 +124,7 @@ def r8d(ctx: Ctx) -> RuleReport:
                 continue
             if n not in lm.spec['classes']:
                 rep.oblige(f'{cp.name}.{n} is a documented class', False, 'class is not in the documented grammar',
-                           LEX, key=f'{cp.name}.{n} documented')
+                           LEX, key=f'{cp.name}.{n} documented', positive=True)
                 continue
             doc = restrict(lm.doc_lang(n), sigma)
             code = restrict(lang, sigma)
@@ -135,7 +135,7 @@ def r8d(ctx: Ctx) -> RuleReport:
                     detail += f'documented but rejected by the pattern: {only_doc!r}. '
                 if only_code is not None:
                     detail += f'accepted by the pattern but not documented: {only_code!r}.'
-            rep.oblige(f'L({cp.name}.{n}) = L(doc {n})', eq, detail, LEX, key=f'{cp.name}.{n} language')
+            rep.oblige(f'L({cp.name}.{n}) = L(doc {n})', eq, detail, LEX, key=f'{cp.name}.{n} language', positive=True)
     # informational: the PEG's stricter StrChar
     strict = restrict(Lang.from_pattern(lm.spec['informational']['STRING_peg_strict']), sigma)
     code = restrict(lm.compiled['PENMAN_RE'].lang('STRING'), sigma) if lm.compiled['PENMAN_RE'].has('STRING') else None
@@ -192,7 +192,7 @@ def r8e(ctx: Ctx) -> RuleReport:
             got = disp[i]
             rep.oblige(f'{cp.name}: first character {key} {blk.describe()} -> {want}', got == want,
                        f'pattern tries {got}' if got != want else '', LEX,
-                       key=f'{cp.name} dispatch {key} {blk.describe()}')
+                       key=f'{cp.name} dispatch {key} {blk.describe()}', positive=True)
         for n, lang, sub in cp.alts:
             if cp.lazy.get(n, 0):
                 # lazy alternative: the engine returns the shortest member at that position; the class language used
@@ -200,19 +200,19 @@ def r8e(ctx: Ctx) -> RuleReport:
                 single = cp.lazy[n] == 1 and all_repeats_greedy([x for x in sub if x[0] is not __import__('pv.rx', fromlist=['sre_c']).sre_c.MIN_REPEAT])
                 rep.oblige(f'{cp.name}.{n}: one lazy repeat followed by a fixed tail, so the match is the shortest member at that position',
                            single, '' if single else 'mixed lazy/greedy repeats: the matched text is not characterised', LEX,
-                           key=f'{cp.name}.{n} longest-match shape')
+                           key=f'{cp.name}.{n} longest-match shape', positive=True)
                 continue
             greedy = all_repeats_greedy(sub)
             det = deterministic(lang)
             rep.oblige(f'{cp.name}.{n}: greedy and 1-unambiguous, so the match is the longest member at that position',
                        greedy and det is None,
                        ('non-greedy repeat; ' if not greedy else '') + (det or ''), LEX,
-                       key=f'{cp.name}.{n} longest-match shape')
+                       key=f'{cp.name}.{n} longest-match shape', positive=True)
         if cp.has('STRING'):
             w = cp.lang('STRING').prefix_unique()
             rep.oblige(f'{cp.name}.STRING is prefix-unique', w is None,
                        f'{w!r} has a proper prefix that is also a STRING' if w else '', LEX,
-                       key=f'{cp.name}.STRING prefix-unique')
+                       key=f'{cp.name}.STRING prefix-unique', positive=True)
     rep.assumptions.append('a line handed to the lexer contains LF only as its last character '
                            '(so the end-of-line assertion of COMMENT always holds after its greedy body)')
     return rep
@@ -227,15 +227,15 @@ def r8f(ctx: Ctx) -> RuleReport:
         if cp.has('SYMBOL'):
             meet = cp.lang('SYMBOL').alphabet() & forbidden
             rep.oblige(f'{cp.name}.SYMBOL excludes every delimiter and blank', not meet,
-                       f'contains {meet.describe()}' if meet else '', LEX, key=f'{cp.name}.SYMBOL excludes delimiters')
+                       f'contains {meet.describe()}' if meet else '', LEX, key=f'{cp.name}.SYMBOL excludes delimiters', positive=True)
         if cp.has('ROLE'):
             role = cp.lang('ROLE')
             tail = (role.alphabet() - CS.of(':')) | (role.continuation_set() & CS.of(':'))
             meet = tail & forbidden
             rep.oblige(f'{cp.name}.ROLE tail excludes every delimiter and blank', not meet,
-                       f'contains {meet.describe()}' if meet else '', LEX, key=f'{cp.name}.ROLE tail excludes delimiters')
+                       f'contains {meet.describe()}' if meet else '', LEX, key=f'{cp.name}.ROLE tail excludes delimiters', positive=True)
             rep.oblige(f'{cp.name}.ROLE starts with a colon', role.first_set() == CS.of(':'),
-                       role.first_set().describe(), LEX, key=f'{cp.name}.ROLE first-set')
+                       role.first_set().describe(), LEX, key=f'{cp.name}.ROLE first-set', positive=True)
     return rep
 
 
@@ -247,19 +247,19 @@ def r8h(ctx: Ctx) -> RuleReport:
     for n in ('SYMBOL', 'ROLE'):
         if cp.has(n):
             meet = cp.lang(n).alphabet() & til
-            rep.oblige(f'~ cannot occur inside a {n} token', not meet, '', LEX, key=f'{n} excludes tilde')
+            rep.oblige(f'~ cannot occur inside a {n} token', not meet, '', LEX, key=f'{n} excludes tilde', positive=True)
     if cp.has('ALIGNMENT'):
         a = cp.lang('ALIGNMENT')
         rep.oblige('every ALIGNMENT starts with ~', a.first_set() == til, a.first_set().describe(), LEX,
-                   key='ALIGNMENT first-set')
+                   key='ALIGNMENT first-set', positive=True)
         rep.oblige('an ALIGNMENT contains no double quote', not (a.alphabet() & quo), '', LEX,
-                   key='ALIGNMENT excludes quote')
+                   key='ALIGNMENT excludes quote', positive=True)
         rep.oblige('an ALIGNMENT contains ~ only as its first character', not (a.continuation_set() & til)
-                   and not ((Lang(a.rx).alphabet() & til) - a.first_set()), '', LEX, key='ALIGNMENT single tilde')
+                   and not ((Lang(a.rx).alphabet() & til) - a.first_set()), '', LEX, key='ALIGNMENT single tilde', positive=True)
     if cp.has('STRING'):
         s = cp.lang('STRING')
         rep.oblige('a STRING starts and ends with a double quote',
-                   s.first_set() == quo and s.last_set() == quo, '', LEX, key='STRING delimited by quotes')
+                   s.first_set() == quo and s.last_set() == quo, '', LEX, key='STRING delimited by quotes', positive=True)
     return rep
 
 
@@ -313,7 +313,7 @@ def r23lex(ctx: Ctx) -> RuleReport:
     ok_start, v_start = try_fold(start) if start is not None else (True, 0)
     rep.oblige('line numbers start at 1', ok_start and v_start == 1,
                f'enumerate start is {norm(start) if start is not None else "0 (default)"}', where,
-               key='_lex enumerate start')
+               key='_lex enumerate start', positive=True)
     src = single_def(ctx, fi, it.args[0]) if it.args else None
     rep.oblige('the loop ranges over the lines argument itself', isinstance(src, ast.Name) and src.id == p_lines,
                f'iterates {norm(it.args[0]) if it.args else "?"}', where, key='_lex iterates lines')
@@ -385,7 +385,7 @@ def r23lex(ctx: Ctx) -> RuleReport:
     path = outer_cfg.path_avoiding([(head, 'T')], {head, outer_cfg.exit, outer_cfg.rexit}, lambda nd: nd.id == target)
     rep.oblige('every line reaches the scan (no line is skipped)', path is None,
                'a path returns to the loop head without scanning the line: ' +
-               ' -> '.join(repr(outer_cfg.nodes[p]) for p in path) if path else '', where, key='_lex every line scanned')
+               ' -> '.join(repr(outer_cfg.nodes[p]) for p in path) if path else '', where, key='_lex every line scanned', positive=True)
     if deleg is not None:
         # inside the helper the scan itself is reached on every path
         fst = fcall
@@ -425,21 +425,21 @@ def r23lex(ctx: Ctx) -> RuleReport:
     rep.oblige('Token.type is m.lastgroup',
                isinstance(a['type'], ast.Attribute) and a['type'].attr == 'lastgroup'
                and isinstance(a['type'].value, ast.Name) and a['type'].value.id == v_m,
-               norm(a['type']), where, key='Token.type provenance')
+               norm(a['type']), where, key='Token.type provenance', positive=True)
     t = a['text']
     text_ok = (_is_call(t, v_m, 'group') and _zero_or_none(t.args)) or (
         isinstance(t, ast.Subscript) and isinstance(t.value, ast.Name) and t.value.id == v_m
         and isinstance(t.slice, ast.Constant) and t.slice.value == 0)
-    rep.oblige('Token.text is the whole match', text_ok, norm(t), where, key='Token.text provenance')
+    rep.oblige('Token.text is the whole match', text_ok, norm(t), where, key='Token.text provenance', positive=True)
     rep.oblige('Token.lineno is the loop index', isinstance(a['lineno'], ast.Name) and a['lineno'].id == v_i,
-               norm(a['lineno']), where, key='Token.lineno provenance')
+               norm(a['lineno']), where, key='Token.lineno provenance', positive=True)
     o = a['offset']
     off_ok = (_is_call(o, v_m, 'start') and _zero_or_none(o.args)) or (
         isinstance(o, ast.Subscript) and _is_call(o.value, v_m, 'span') and _zero_or_none(o.value.args)
         and isinstance(o.slice, ast.Constant) and o.slice.value == 0)
-    rep.oblige('Token.offset is the start of the match', off_ok, norm(o), where, key='Token.offset provenance')
+    rep.oblige('Token.offset is the start of the match', off_ok, norm(o), where, key='Token.offset provenance', positive=True)
     rep.oblige('Token.line is the scanned line', isinstance(a['line'], ast.Name) and a['line'].id == v_line,
-               norm(a['line']), where, key='Token.line provenance')
+               norm(a['line']), where, key='Token.line provenance', positive=True)
     # every match is yielded
     ynode = None
     for n in ast.walk(inner):
@@ -449,7 +449,7 @@ def r23lex(ctx: Ctx) -> RuleReport:
                 ynode = n
     if ynode is None:
         rep.oblige('every match is yielded as its token', False, 'the constructed Token is not yielded', where,
-                   key='_lex yields token')
+                   key='_lex yields token', positive=True)
     else:
         yst = ynode
         while not isinstance(yst, ast.stmt):
@@ -459,8 +459,14 @@ def r23lex(ctx: Ctx) -> RuleReport:
         path = cfg.path_avoiding([(ih, 'T')], {ih, cfg.exit}, lambda nd: nd.id == ytarget)
         rep.oblige('every match is yielded as its token', path is None,
                    'a match can be dropped: ' + ' -> '.join(repr(cfg.nodes[p]) for p in path) if path else '',
-                   where, key='_lex yields token')
+                   where, key='_lex yields token', positive=True)
     # variables not reassigned between definition and use
+    for n in walk_local(fi.node):
+        if isinstance(n, ast.Assign) and isinstance(n.targets[0], ast.Name) and n.targets[0].id == v_line and isinstance(n.value, ast.Call) \
+                and isinstance(n.value.func, ast.Attribute) and norm(n.value.func.value) == v_line:
+            rep.violation(f'_lex scans the line as it was given', fi.loc(n),
+                          f'`{norm(n)}` rewrites the line before it is scanned: token texts (including the inside of quoted strings), columns and '
+                          f'Token.line no longer are those of the input')
     for v in (v_i, v_line, v_m):
         n_defs = len(ctx.cg.local_assigns(fi).get(v, []))
         want = 0 if (deleg is not None and v in (v_i, v_line)) else 1       # helper parameters are bound by the call
@@ -648,6 +654,14 @@ def r34(ctx: Ctx) -> RuleReport:
                 from ..cfg import _split
                 split(e.body, facts | _split(e.test, True))
                 split(e.orelse, facts | _split(e.test, False))
+            elif isinstance(e, ast.Call) and dotted(e.func) == 'json.dumps' and len(e.args) == 1 and isinstance(e.args[0], ast.IfExp) and not e.keywords:
+                # json.dumps(a if c else b)  ==  json.dumps(a) if c else json.dumps(b);  json.dumps('') is the text ""
+                from ..cfg import _split
+                for arm, pol in ((e.args[0].body, True), (e.args[0].orelse, False)):
+                    if isinstance(arm, ast.Constant) and arm.value == '':
+                        arms.append((r, ast.Constant(value='""'), facts | _split(e.args[0].test, pol)))
+                    else:
+                        arms.append((r, ast.Call(func=e.func, args=[arm], keywords=[]), facts | _split(e.args[0].test, pol)))
             else:
                 arms.append((r, e, facts))
         split(single_def(ctx, q, r.value) if r.value is not None else ast.Constant(value=None), set(facts0))
@@ -681,7 +695,7 @@ def r34(ctx: Ctx) -> RuleReport:
                 bad_kw.append(norm(kw.value) if kw.arg is None else f'{kw.arg}={norm(kw.value)}')
             rep.oblige('json.dumps is called without options that change the output alphabet', not bad_kw,
                        f'keywords {bad_kw} (the JSON string model below assumes the defaults)', q.loc(r),
-                       key=key + ' keywords')
+                       key=key + ' keywords', positive=True)
             continue
         rep.oblige('every return of quote is "" (for None) or json.dumps(str(x))', False,
                    f'returns {norm(v)[:60]}', q.loc(r), key=key, positive=False)
@@ -696,17 +710,17 @@ def r34(ctx: Ctx) -> RuleReport:
         S = cp.lang('STRING')
         w = J.witness_not_subset(S)
         rep.oblige(f'every JSON string is one {cp.name}.STRING token (J subset of L(STRING))', w is None,
-                   f'{w!r} is emitted by quote but is not a STRING' if w else '', LEX, key=f'{cp.name} J subset STRING')
+                   f'{w!r} is emitted by quote but is not a STRING' if w else '', LEX, key=f'{cp.name} J subset STRING', positive=True)
         ext = S.cat(Lang.from_pattern('.+', re.DOTALL))
         w2 = ext.witness_intersection(J)
         rep.oblige(f'no JSON string has a shorter {cp.name}.STRING as a proper prefix', w2 is None,
-                   f'{w2!r}' if w2 else '', LEX, key=f'{cp.name} J prefix-free wrt STRING')
+                   f'{w2!r}' if w2 else '', LEX, key=f'{cp.name} J prefix-free wrt STRING', positive=True)
     term = CS.of('\n', '\r', '\x0b', '\x0c', '\x1c', '\x1d', '\x1e', '\x85', ' ', ' ')
     meet = J.alphabet() & term
     rep.oblige('a quoted constant contains no line terminator of any kind', not meet, meet.describe() if meet else '',
-               CON, key='J excludes line terminators')
+               CON, key='J excludes line terminators', positive=True)
     rep.oblige('a quoted constant starts and ends with a double quote',
-               J.first_set() == CS.of('"') and J.last_set() == CS.of('"'), '', CON, key='J delimited')
+               J.first_set() == CS.of('"') and J.last_set() == CS.of('"'), '', CON, key='J delimited', positive=True)
     # evaluate
     ev = repo.func('penman.constant', 'evaluate')
     _check_evaluate(ctx, rep, ev)
@@ -714,7 +728,37 @@ def r34(ctx: Ctx) -> RuleReport:
     calls_eval = any(any(t.kind == 'func' and t.func.fq == ev.fq for t in ts) for _, ts in ctx.cg.calls_in(ty))
     rep.oblige('type() derives the type from evaluate()', calls_eval, '', ty.loc(), key='type calls evaluate', positive=False)
     ok, tm = try_fold_typemap(ctx)
-    rep.oblige('the type map sends str/int/float/None to Symbol/Integer/Float/Null', ok, tm, CON, key='_typemap', positive=False)
+    # a hand-written number grammar in type()/evaluate() must be the JSON number grammar that evaluate() decodes with
+    m = repo.module('penman.constant')
+    pats = {}
+    for f in (ty, ev):
+        for n in walk_local(f.node):
+            if isinstance(n, ast.Call) and isinstance(n.func, ast.Attribute) and n.func.attr in ('fullmatch', 'match') and isinstance(n.func.value, ast.Name):
+                cv = m.constants.get(n.func.value.id)
+                if isinstance(cv, ast.Call) and norm(cv.func) == 're.compile' and cv.args:
+                    okp, pv = try_fold(cv.args[0], {}, repo, m)
+                    if okp and isinstance(pv, str):
+                        pats[n.func.value.id] = (pv, n)
+    if pats:
+        json_num = Lang.from_pattern(r'-?(?:0|[1-9][0-9]*)(?:\.[0-9]+)?(?:[eE][-+]?[0-9]+)?')
+        union = None
+        for nm, (pv, n) in sorted(pats.items()):
+            l = Lang.from_pattern(pv)
+            union = l if union is None else union.union(l)
+        eq, only_code, only_json = union.equivalent(json_num)
+        rep.add('penman.constant:type: a number grammar written by hand equals the JSON number grammar of evaluate()', ty.loc(),
+                'ok' if eq else 'violation',
+                '' if eq else f'the patterns {sorted(pats)} together ' + (f'do not match {only_json!r}, which json.loads reads as a number: type() and '
+                                                                      f'evaluate() then disagree about it' if only_json is not None else
+                                                                      f'match {only_code!r}, which is not JSON number syntax'))
+    else:
+        rep.oblige('the type map sends str/int/float/None to Symbol/Integer/Float/Null', ok, tm, CON, key='_typemap', positive=False)
+    # raw_decode accepts a JSON value that is only a prefix of the text
+    for f in (ty, ev):
+        for n in walk_local(f.node):
+            if isinstance(n, ast.Call) and isinstance(n.func, ast.Attribute) and n.func.attr == 'raw_decode':
+                rep.violation(f'{f.fq}: the whole atom is decoded', f.loc(n), f'`{norm(n)[:60]}` stops at the end of the first JSON value and the rest of the atom is '
+                              f'ignored: "1st" evaluates to 1, "trueness" to True, "nullify" to None')
     rep.assumptions += ['json.dumps(s) for a str s with default options emits: quote, then printable ASCII other than '
                         'quote/backslash, or \\" \\\\ \\b \\f \\n \\r \\t, or \\uXXXX with lower-case hex, then quote '
                         '(CPython json.encoder.ESCAPE_ASCII)',
@@ -737,7 +781,7 @@ def _check_evaluate(ctx, rep, ev: FuncInfo):
         kws = {k.arg: norm(k.value) for k in c.keywords}
         good = kws == {'parse_constant': 'str'}
         rep.oblige('json.loads hooks: parse_constant=str and nothing else (NaN/Infinity stay text; no float/int/object hooks)',
-                   good, f'keywords {kws}', ev.loc(c), key=f'penman.constant:evaluate: json.loads hooks')
+                   good, f'keywords {kws}', ev.loc(c), key=f'penman.constant:evaluate: json.loads hooks', positive=True)
         facts = facts_at(cfg, IN, pm, c)
         guard = None
         for f, pol in facts:
@@ -777,16 +821,40 @@ def _check_evaluate(ctx, rep, ev: FuncInfo):
                    key='penman.constant:evaluate: JSONDecodeError handled', positive=False)
     # final isinstance filter dominates every return of a loaded value
     filt = False
+    mconst = ctx.repo.module('penman.constant')
+
+    def type_names(x, depth=0):
+        """names of the classes in the second argument of isinstance, through module-level tuples / tuple(<dict of types>)"""
+        if depth > 8:
+            return None
+        if isinstance(x, ast.Tuple):
+            out = set()
+            for e in x.elts:
+                t = type_names(e, depth + 1)
+                if t is None:
+                    return None
+                out |= t
+            return out
+        if isinstance(x, ast.Call) and norm(x.func) in ('type', 'pytype') and len(x.args) == 1 and isinstance(x.args[0], ast.Constant) and x.args[0].value is None:
+            return {'NoneType'}
+        if isinstance(x, ast.Name) and x.id in ('str', 'int', 'float', 'bool', 'list', 'dict', 'tuple', 'object'):
+            return {x.id}
+        if isinstance(x, ast.Name) and x.id in mconst.constants:
+            return type_names(mconst.constants[x.id], depth + 1)
+        if isinstance(x, ast.Call) and norm(x.func) == 'tuple' and len(x.args) == 1:
+            return type_names(x.args[0], depth + 1)
+        if isinstance(x, ast.Dict):
+            return type_names(ast.Tuple(elts=list(x.keys), ctx=ast.Load()), depth + 1)
+        return None
     for n in walk_local(ev.node):
-        if isinstance(n, ast.If):
-            src = norm(n.test)
-            if 'isinstance' in src and 'str' in src and 'int' in src and 'float' in src \
-                    and any(isinstance(b, ast.Raise) for b in n.body):
-                raised = [norm(b.exc.func) for b in n.body if isinstance(b, ast.Raise) and isinstance(b.exc, ast.Call)]
-                filt = 'ConstantError' in raised
-                # `bool` must not be let through explicitly
-                if 'bool' in src:
-                    filt = False
+        if isinstance(n, ast.If) and any(isinstance(b, ast.Raise) for b in n.body):
+            calls_ = [x for x in ast.walk(n.test) if isinstance(x, ast.Call) and norm(x.func) == 'isinstance' and len(x.args) == 2]
+            if len(calls_) != 1:
+                continue
+            tn = type_names(calls_[0].args[1])
+            raised = [norm(b.exc.func) for b in n.body if isinstance(b, ast.Raise) and isinstance(b.exc, ast.Call)]
+            if tn is not None and {'str', 'int', 'float'} <= tn <= {'str', 'int', 'float', 'NoneType'} and 'ConstantError' in raised:
+                filt = True
     rep.oblige('values other than None/str/int/float are refused with ConstantError', filt, '', ev.loc(),
                key='penman.constant:evaluate: isinstance filter', positive=False)
     # every returned value is: the text itself, None, or what json.loads returned (through locals)
@@ -834,13 +902,13 @@ def _check_evaluate(ctx, rep, ev: FuncInfo):
     rep.oblige('numbers are recognised by the JSON number grammar only (no int()/float() on the text)', not conv,
                '' if not conv else f'{[norm(c)[:40] for c in conv]}: int()/float() accept texts that are not JSON numbers (leading zeros, '
                                    f'non-ASCII digits, underscores, surrounding blanks) and raise ValueError on others',
-               ev.loc(), key='penman.constant:evaluate: no ad-hoc number conversion')
+               ev.loc(), key='penman.constant:evaluate: no ad-hoc number conversion', positive=True)
     raises = set()
     for n in walk_local(ev.node):
         if isinstance(n, ast.Raise) and n.exc is not None:
             raises.add(norm(n.exc.func) if isinstance(n.exc, ast.Call) else norm(n.exc))
     rep.oblige('evaluate raises only ConstantError explicitly', raises <= {'ConstantError'}, f'{sorted(raises)}',
-               ev.loc(), key='penman.constant:evaluate: explicit raises')
+               ev.loc(), key='penman.constant:evaluate: explicit raises', positive=True)
 
 
 def try_fold_typemap(ctx):
